@@ -29,7 +29,7 @@ RULE = ("cases: fitter configurations with <= k deviations from the default; exe
 ASSUMPTIONS = ["finite value alphabets (DESIGN.md section 0)", "theta*dmin not below the smallest aperture (precondition)",
                "sources have >= 1 fitted point with non-zero extinction coefficient"]
 REQUIRED_CLASSES = ['n_distances==1', 'aperture-beyond-table', 'best-at-first', 'best-interior', 'best-at-last', 'av-clipped-some-distances',
-                    'range-multiple-of-step', 'range-exact-multiple-exact-arithmetic', 'float32-path', 'limit-violated', 'non-monotone-growth', 'mixed-theta', 'request-on-smallest-aperture']
+                    'range-multiple-of-step', 'range-exact-multiple-exact-arithmetic', 'float32-path', 'limit-violated', 'non-monotone-growth', 'mixed-theta', 'request-on-smallest-aperture', 'distance-range-in-other-unit']
 TIMEOUT = {'quick': 300, 'thorough': 1800}
 
 AXES = {
@@ -40,6 +40,7 @@ AXES = {
     'variant': [0, 1, 2, 3],
     'avr': [(-40.0, 40.0), (0.0, 1.0), (2.5, 2.5)],
     'theta': ['uniform', 'mixed'],
+    'dunit': ['kpc', 'pc', 'cm'],
 }
 VARIANTS = [('v1', False, False), ('v2', True, False), ('v2', False, False), ('v2', True, True)]
 BANDS = ['B1', 'B3', 'B5']
@@ -88,6 +89,8 @@ def run_case(ctx, case, rec, d):
     theta = [1.0, 1.0, 1.0] if case['theta'] == 'uniform' else [1.0, 3.0, 1.0]
     if case['theta'] == 'mixed':
         rec.cls('mixed-theta')
+    if case.get('dunit', 'kpc') != 'kpc':
+        rec.cls('distance-range-in-other-unit')
     ap, tables = fc.grid3d(seed * 10 + 1, n_models=5, n_ap=case['n_ap'], bands=BANDS, monotone=(case['grid'] != 'arbitrary'),
                            irregular=(case['grid'] == 'irregular'))
     if case['grid'] == 'arbitrary':
@@ -100,10 +103,13 @@ def run_case(ctx, case, rec, d):
     md = fc.build_package(d, 'pkg', spec)
     cfg_key = tuple(sorted((k, str(v)) for k, v in case.items()))
     try:
-        fitter = fc.make_fitter(md, BANDS, 'power', (avlo, avhi), distance_range_kpc=(dmin, dmax), theta=theta, memmap=memmap, by_wavelength=bywav)
+        fitter = fc.make_fitter(md, BANDS, 'power', (avlo, avhi), distance_range_kpc=(dmin, dmax), theta=theta, memmap=memmap, by_wavelength=bywav, dunit=case.get('dunit', 'kpc'))
     except Exception as e:
-        req = min(theta) * dmin * 1000.0
-        if case['range'] == 'onsmallest' and 'too small' in str(e) and abs(req - ap[0]) <= 4 * np.spacing(ap[0]):
+        # the request as the natural float expression gives it (arcsec x distance in pc): a refusal is acceptable only
+        # if rounding really puts it below the smallest tabulated aperture
+        from astropy import units as u
+        req = min(theta) * ((dmin * u.kpc).to(u.Unit(case.get('dunit', 'kpc'))).to(u.pc).value)
+        if case['range'] == 'onsmallest' and 'too small' in str(e) and req < ap[0] and abs(req - ap[0]) <= 4 * np.spacing(ap[0]):
             rec.notes['conformant-refusal-within-4ulp-of-smallest-aperture'] += 1
             rec.cls('request-on-smallest-aperture')
             rec.outcome('refused-on-smallest')
